@@ -94,7 +94,12 @@ type c12case struct {
 	// the inherit flag is on and the logger is the last of a chain root (one attribute) -> middle (none) -> logger (one):
 	// the record carries the root's attribute too
 	InheritChain bool `json:"inherit_flag_and_a_bare_logger_in_the_middle_of_the_chain,omitempty"`
+	// the message has three lines, the second of them 64 KiB long or longer: the record is complete all the same
+	LongLine bool `json:"message_with_a_continuation_line_of_64KiB_or_more,omitempty"`
 }
+
+// c12longTail is what follows the base text in the LongLine cells
+var c12longTail = "\n" + strings.Repeat("0123456789abcdef", 4097) + "\nc12-last-line"
 
 // closedOnceW reports a wrapped os.ErrClosed for its first Write and stores what it is handed ever after.
 type closedOnceW struct {
@@ -354,6 +359,14 @@ func c12enumerate() []c12case {
 			d++
 		}
 	}
+	// round 14: a message whose second line is 64 KiB or longer (colored cells)
+	for _, b := range base {
+		if b.Format == "color" && b.Admit {
+			x := b
+			x.LongLine = true
+			out = append(out, x)
+		}
+	}
 	return out
 }
 
@@ -433,6 +446,9 @@ func c12exec(c *Ctx, out string) {
 	}
 	if cs.LeadingBreak {
 		c12msg = "\n" + c12msgBase
+	}
+	if cs.LongLine {
+		c12msg = c12msgBase + c12longTail
 	}
 	if cs.InheritChain {
 		slog.AddFlags(slog.LattrsR)
@@ -750,6 +766,8 @@ func c12matrix(c *Ctx) {
 		// no destination to look at: the termination rule is all there is to judge
 		noDest := cs.Dest == "discard" || cs.Dest == "none"
 		switch {
+		case cs.LongLine && cs.Admit && !bytes.Contains(rec, []byte("c12-last-line")):
+			fail("record-first", "admitted call: the record lacks the last line of the message (it stands behind a line of 64 KiB)")
 		case cs.InheritChain && cs.Admit && !(bytes.Contains(rec, []byte("inherited-from-the-root")) && bytes.Contains(rec, []byte("of-the-logger"))):
 			fail("record-first", "admitted call with the inherit flag on: the record does not carry the attributes of the logger chain (root: top, logger: own)")
 		case noDest && len(rec) != 0:
@@ -761,8 +779,8 @@ func c12matrix(c *Ctx) {
 		case terminate && cs.Sev == "panic":
 			if exit != 0 || res == nil || !res.Panicked {
 				fail("panic-expected", "admitted Panic without no-interrupt flag must panic")
-			} else if wantMsg := map[bool]string{true: "\n"}[cs.LeadingBreak] + c12msgBase + map[bool]string{true: "\r\n\n"}[cs.TrailingBreaks] + map[bool]string{true: c12markup}[cs.MarkupMsg]; res.Value != wantMsg || res.ValueT != "string" {
-				fail("panic-value", fmt.Sprintf("panic value is %q (%s), expected the message", res.Value, res.ValueT))
+			} else if wantMsg := map[bool]string{true: "\n"}[cs.LeadingBreak] + c12msgBase + map[bool]string{true: "\r\n\n"}[cs.TrailingBreaks] + map[bool]string{true: c12markup}[cs.MarkupMsg] + map[bool]string{true: c12longTail}[cs.LongLine]; res.Value != wantMsg || res.ValueT != "string" {
+				fail("panic-value", fmt.Sprintf("panic value is %q (%s), expected the message", clip(res.Value, 300), res.ValueT))
 			} else {
 				c.R.Add("panics_observed", 1)
 			}
@@ -847,7 +865,8 @@ func c12execNegative(c *Ctx, out string) {
 		// the Fatal / Panic severities
 		_ = slog.RegisterLevel(slog.Level(50), "audit-fatal", slog.RegWithTreatedAsLevel(slog.FatalLevel))
 		_ = slog.RegisterLevel(slog.Level(51), "audit-panic", slog.RegWithTreatedAsLevel(slog.PanicLevel), slog.RegWithPrintToErrorDevice(true))
-		negSevs := []slog.Level{slog.Level(50), slog.Level(51), slog.ErrorLevel, slog.WarnLevel, slog.InfoLevel, slog.DebugLevel, slog.TraceLevel, slog.OffLevel, slog.AlwaysLevel, slog.OKLevel, slog.SuccessLevel, slog.FailLevel, slog.Level(40), slog.Level(-3)}
+		_ = slog.RegisterLevel(slog.Level(52), "\u6ce8\u610f") // (two characters, six bytes: shorter than the level tag in characters, longer in bytes)
+		negSevs := []slog.Level{slog.Level(52), slog.Level(50), slog.Level(51), slog.ErrorLevel, slog.WarnLevel, slog.InfoLevel, slog.DebugLevel, slog.TraceLevel, slog.OffLevel, slog.AlwaysLevel, slog.OKLevel, slog.SuccessLevel, slog.FailLevel, slog.Level(40), slog.Level(-3)}
 		for pass, format := range []string{"default", "json", "logfmt", "color", "color-without-colours"} {
 			if format == "color-without-colours" {
 				// the application took the colours of every severity away
